@@ -8,7 +8,8 @@ from ..astutil import call_name, dotted, short, u
 from ..core import Report
 from ..ctx import paths, sites
 from ..frontend import Repo
-from ..rules import has_guard
+from ..model import is_schedule_call
+from ..rules import cell_name, has_guard, locals_by_init, names_assigned_const
 
 FF = "reactivex/observable/fromfuture.py"
 FC = "reactivex/observable/fromcallback.py"
@@ -76,15 +77,15 @@ def check(repo: Repo, rep: Report) -> None:
     rep.ob("T2-wiring", csub, "func(*arguments, handler) once", ok, "the wrapped function is not called exactly once with the handler as its last argument")
     # to_async_
     act = repo.fn(TA, "to_async_.wrapper.action")
-    for p in paths(act, down("subject")):
+    wr = repo.fn(TA, "to_async_.wrapper")
+    subjs = locals_by_init(wr, lambda v: isinstance(v, ast.Call) and call_name(v) == "AsyncSubject")
+    for p in paths(act, down(subjs[0] if len(subjs) == 1 else "?subject")):
         desc = f"action path[exc={p.exc}] -> {p.kinds}"
         want = ["ERR"] if p.exc else ["NEXT", "COMPL"]
         rep.ob("T1-single-shot", act, desc, p.kinds == want,
                "to_async/start: the function's result is not delivered as exactly (result, completion), or its exception as exactly an error")
-    wr = repo.fn(TA, "to_async_.wrapper")
-    subj = any(isinstance(s.node, (ast.Assign, ast.AnnAssign)) and isinstance(s.node.value, ast.Call) and call_name(s.node.value) == "AsyncSubject"
-               for s in sites(wr))
-    sch = any(isinstance(s.node, ast.Call) and dotted(s.node.func) == "_scheduler.schedule" and u(s.node.args[0]) == "action" for s in sites(wr))
+    subj = len(subjs) == 1
+    sch = any(is_schedule_call(s.node) and s.node.func.attr == "schedule" and s.node.args and u(s.node.args[0]) == "action" for s in sites(wr))
     rep.ob("T2-wiring", wr, "AsyncSubject + _scheduler.schedule(action)", subj and sch,
            "to_async does not run the function once on the scheduler and multicast its single result through an AsyncSubject")
     st = repo.fn(ST, "start_")
@@ -100,22 +101,33 @@ def check(repo: Repo, rep: Report) -> None:
     tf = repo.fn(TF, "to_future_.to_future")
     oc = repo.fn(TF, "to_future_.to_future.on_completed")
 
+    on = repo.fn(TF, "to_future_.to_future.on_next")
+    # roles: future = what to_future returns; has_value = the cell on_next sets True; last_value = the cell on_next
+    # assigns its element to
+    futs = {u(s.node.value) for s in sites(tf) if isinstance(s.node, ast.Return) and isinstance(s.node.value, ast.Name)}
+    rep.require(len(futs) == 1, "to_future: returned future")
+    fut = next(iter(futs))
+    hvs = names_assigned_const(on, True)
+    lvs = [cell_name(n.targets[0]) for n in on.direct_nodes() if isinstance(n, ast.Assign) and u(n.value) == on.params[0] and cell_name(n.targets[0])]
+    hv_name = hvs[0] if len(hvs) == 1 else "?has-value"
+    lv_name = lvs[0] if len(lvs) == 1 else "?last-value"
+
     def fev(n: ast.AST) -> Optional[str]:
-        if isinstance(n, ast.Call) and dotted(n.func) == "future.set_result":
+        if isinstance(n, ast.Call) and dotted(n.func) == f"{fut}.set_result":
             return "RESULT:" + u(n.args[0])
-        if isinstance(n, ast.Call) and dotted(n.func) == "future.set_exception":
+        if isinstance(n, ast.Call) and dotted(n.func) == f"{fut}.set_exception":
             return "EXC:" + u(n.args[0])
         return None
     for p in paths(oc, fev):
         if p.exc:
             continue
-        hv = p.decided("has_value")
-        canc = p.decided("future.cancelled()")
+        hv = p.decided(hv_name)
+        canc = p.decided(f"{fut}.cancelled()")
         desc = f"on_completed path[{' ; '.join(f'{t}={v}' for t, v in p.decisions)}] -> {p.kinds}"
         if canc:
             ok = p.kinds == []
         elif hv:
-            ok = len(p.kinds) == 1 and p.kinds[0].startswith("RESULT:") and "last_value" in p.kinds[0]
+            ok = len(p.kinds) == 1 and p.kinds[0].startswith("RESULT:") and lv_name in p.kinds[0]
         else:
             ok = p.kinds == ["EXC:SequenceContainsNoElementsError()"]
         rep.ob("T3-blocking-result", oc, desc, ok,
@@ -125,12 +137,11 @@ def check(repo: Repo, rep: Report) -> None:
     for p in paths(oe, fev):
         if p.exc:
             continue
-        canc = p.decided("future.cancelled()")
+        canc = p.decided(f"{fut}.cancelled()")
         rep.ob("T3-blocking-result", oe, f"on_error path -> {p.kinds}", p.kinds == ([] if canc else [f"EXC:{oe.params[0]}"]),
                "to_future: an error does not become the future's exception")
-    on = repo.fn(TF, "to_future_.to_future.on_next")
-    ok = any(isinstance(s.node, ast.Assign) and u(s.node.targets[0]) == "last_value" and u(s.node.value) == on.params[0] and not s.ctx.branch for s in sites(on)) \
-        and any(isinstance(s.node, ast.Assign) and u(s.node.targets[0]) == "has_value" and u(s.node.value) == "True" and not s.ctx.branch for s in sites(on))
+    ok = any(isinstance(s.node, ast.Assign) and cell_name(s.node.targets[0]) == lv_name and u(s.node.value) == on.params[0] and not s.ctx.branch for s in sites(on)) \
+        and any(isinstance(s.node, ast.Assign) and cell_name(s.node.targets[0]) == hv_name and u(s.node.value) == "True" and not s.ctx.branch for s in sites(on))
     rep.ob("T3-blocking-result", on, "on_next records last_value and has_value unconditionally", ok,
            "to_future does not record every element as the (new) last value")
     subs = [s for s in sites(tf) if isinstance(s.node, ast.Call) and dotted(s.node.func) == "source.subscribe"]
@@ -138,20 +149,53 @@ def check(repo: Repo, rep: Report) -> None:
     rep.ob("T2-wiring", tf, "source.subscribe(on_next, on_error, on_completed)", ok, "to_future's handlers are not wired to their slots")
     # run
     run = repo.fn(RUN, "run")
+    rn = repo.fn(RUN, "run.on_next")
+    re_ = repo.fn(RUN, "run.on_error")
+    # roles: result / has_result = what on_next records; exception = the cell on_error assigns its argument to;
+    # latch = the threading.Event local; done = the cell both terminal handlers set True
+    res_v = [cell_name(n.targets[0]) for n in rn.direct_nodes() if isinstance(n, ast.Assign) and u(n.value) == rn.params[0] and cell_name(n.targets[0])]
+    has_v = names_assigned_const(rn, True)
+    exc_v = [cell_name(n.targets[0]) for n in re_.direct_nodes() if isinstance(n, ast.Assign) and u(n.value) == re_.params[0] and cell_name(n.targets[0])]
+    latches = locals_by_init(run, lambda v: isinstance(v, ast.Call) and call_name(v) == "Event")
+    result = res_v[0] if len(res_v) == 1 else "?result"
+    has_result = has_v[0] if len(has_v) == 1 else "?has-result"
+    exception = exc_v[0] if len(exc_v) == 1 else "?exception"
+    latch = latches[0] if len(latches) == 1 else "?latch"
     rz = [s for s in sites(run) if isinstance(s.node, ast.Raise)]
-    exc_raise = [s for s in rz if any("exception" in u(e) and p for e, p in s.ctx.guards) and "exception" in u(s.node.exc)]
-    none_raise = [s for s in rz if has_guard(s.ctx, "has_result", False) and "SequenceContainsNoElementsError" in u(s.node.exc)]
-    ret = [s for s in sites(run) if isinstance(s.node, ast.Return) and u(s.node.value) == "result"]
+    def exc_present(e, p_):
+        return (p_ and u(e) in (exception, f"{exception} is not None")) or ((not p_) and u(e) == f"{exception} is None")
+    exc_raise = [s for s in rz if any(exc_present(e, p_) for e, p_ in s.ctx.guards)
+                 and any(isinstance(x, ast.Name) and x.id == exception for x in ast.walk(s.node.exc))]
+    none_raise = [s for s in rz if has_guard(s.ctx, has_result, False) and "SequenceContainsNoElementsError" in u(s.node.exc)]
+    ret = [s for s in sites(run) if isinstance(s.node, ast.Return) and u(s.node.value) == result]
     ok = bool(exc_raise) and bool(none_raise) and bool(ret) and exc_raise[0].index < none_raise[0].index < ret[0].index
     rep.ob("T3-blocking-result", run, "raise error; raise SequenceContainsNoElementsError if no element; return last", ok,
            "run(): the blocking result is not (error raised, else SequenceContainsNoElementsError when empty by the has_result "
            "flag, else the last element)")
-    rn = repo.fn(RUN, "run.on_next")
-    ok = any(isinstance(s.node, ast.Assign) and u(s.node.targets[0]) == "result" and u(s.node.value) == rn.params[0] and not s.ctx.branch for s in sites(rn)) \
-        and any(isinstance(s.node, ast.Assign) and u(s.node.targets[0]) == "has_result" and u(s.node.value) == "True" and not s.ctx.branch for s in sites(rn))
+    ok = any(isinstance(s.node, ast.Assign) and cell_name(s.node.targets[0]) == result and u(s.node.value) == rn.params[0] and not s.ctx.branch for s in sites(rn)) \
+        and any(isinstance(s.node, ast.Assign) and cell_name(s.node.targets[0]) == has_result and u(s.node.value) == "True" and not s.ctx.branch for s in sites(rn))
     rep.ob("T3-blocking-result", rn, "run.on_next records result and has_result unconditionally", ok, "run() does not record every element as the last value")
-    for nm, want in (("on_error", ["exception", "latch.set"]), ("on_completed", ["latch.set"])):
+    # the recorded error decides by identity, never by truthiness: an exception object may be falsy (__len__ / __bool__)
+    for s in sites(run):
+        if isinstance(s.node, (ast.If, ast.While, ast.IfExp, ast.Assert)):
+            from ..astutil import atoms
+            for e, _pol in atoms(s.node.test, True):
+                for x in (e.values if isinstance(e, ast.BoolOp) else [e]):
+                    while isinstance(x, ast.UnaryOp) and isinstance(x.op, ast.Not):
+                        x = x.operand
+                    if isinstance(x, ast.Name) and x.id == exception:
+                        rep.ob("T3-blocking-result", run, "run(): recorded error tested by truthiness", False,
+                               "run() decides whether the sequence failed by the truthiness of the exception object: a falsy exception "
+                               "(an exception class defining __len__ / __bool__) is not raised -- run() returns the last element or "
+                               "raises SequenceContainsNoElementsError instead of the sequence's error")
+                    elif isinstance(x, ast.Compare) and u(x.left) == exception and isinstance(x.ops[0], (ast.Is, ast.IsNot)):
+                        rep.ob("T3-blocking-result", run, f"run(): `{short(x, 40)}`", True)
+    waits = [s for s in sites(run) if isinstance(s.node, ast.Call) and dotted(s.node.func) == f"{latch}.wait"]
+    for nm in ("on_error", "on_completed"):
         g = repo.fn(RUN, f"run.{nm}")
-        txt = " ".join(u(s.node) for s in sites(g) if isinstance(s.node, (ast.Assign, ast.Call)))
-        ok = all(w in txt for w in want) and "done = True" in " ".join(u(s.node) for s in sites(g) if isinstance(s.node, ast.Assign))
+        sets = any(isinstance(s.node, ast.Call) and dotted(s.node.func) == f"{latch}.set" and not s.ctx.branch for s in sites(g))
+        # the flag(s) the waiting loop tests must be set by the handler before the latch is released
+        loop_flags = {cell_name(e) for w in waits for e, p_ in w.ctx.guards if not p_ and cell_name(e)}
+        done_ok = all(fl in names_assigned_const(g, True) for fl in loop_flags)
+        ok = sets and done_ok and (nm != "on_error" or len(exc_v) == 1)
         rep.ob("T3-blocking-result", g, f"run.{nm} records the outcome and releases the waiter", ok, f"run.{nm} does not wake the blocked caller")
